@@ -11,7 +11,7 @@ from ..runner import short
 from .c06 import views
 
 ID = "C05"
-N = {"quick": 9000, "thorough": 300000}
+N = {"quick": 30000, "thorough": 300000}
 TIME_BUDGET = {"quick": 45, "thorough": 480}
 MIN_NONTRIVIAL = {"quick": 300, "thorough": 3000}
 RULE = ("cases = generated declaration over the full Field parameter space (as C06: required incl. mode strings, default / "
